@@ -138,7 +138,7 @@ def hat_integral(h, a, b):
 
 class DimWiseRun:
     def __init__(self, D, lmin, lmax, version=6, rebalancing=True, boundary=True, margin=None, safety=0.1,
-                 a=None, b=None, with_hats=True, modified_basis=False, scripted=True, max_hats=None, hat_seed=0, int_domain=False, continue_via='resume'):
+                 a=None, b=None, with_hats=True, modified_basis=False, scripted=True, max_hats=None, hat_seed=0, int_domain=False, continue_via='resume', extra=None):
         SA, GT, Integration, EC, _ = _imports()
         self.D, self.lmin, self.lmax0 = D, lmin, lmax
         self.a = np.array([0.0] * D if a is None else a, dtype=float)
@@ -155,6 +155,7 @@ class DimWiseRun:
         kw = dict(version=version, operation=self.op, rebalancing=rebalancing, rebalancing_safety_factor=safety)
         if margin is not None:
             kw['margin'] = margin
+        kw.update(extra or {})      # further constructor options of the strategy (dim_adaptive, force_balanced_refinement_tree, ...)
         # integer-valued domains may be handed over as integer arrays (accepted by the library)
         a_arg, b_arg = (np.array([int(x) for x in self.a]), np.array([int(x) for x in self.b])) if int_domain else (self.a, self.b)
         self.combi = SA(a_arg, b_arg, **kw)
@@ -171,7 +172,7 @@ class DimWiseRun:
         self.continue_via = continue_via      # 'resume': continue_adaptive_refinement; 'container': a new performSpatiallyAdaptiv call that is handed the
         self.ncont = 0                        # object's own refinement container (documented way to continue); 'mixed': alternating
         self.cfg = dict(D=D, lmin=lmin, lmax=lmax, version=version, rebalancing=rebalancing, boundary=boundary,
-                        margin=self.margin_req, safety=safety, a=list(map(float, self.a)), b=list(map(float, self.b)))
+                        margin=self.margin_req, safety=safety, a=list(map(float, self.a)), b=list(map(float, self.b)), extra=dict(extra or {}))
 
     # ---- driving
     def evaluate(self):
